@@ -46,13 +46,13 @@ R = [
  (r"^<op_back_reference::BackReference as operation::OperationControl>::matches_iter\|Overflow:Add\(a3, ", None, "position <= len(search) on entry to every matches_iter (POSITION-RANGE: the scan loops range below len+1 [SEARCH-COVER range|*], check_preconditions tests fixed positions against the input length [PRECOND-CHECK fixed|position-within-input] and ranges below len [floating|range-bounds], every operator passes on its own position or one a child iterator yielded, and the leaves yield at most len [LITERAL-ATOM, CLASS-MEMBERSHIP, LEAF-BACKREF]); the other operand is the length of a captured span or an index below it, at most len(search)"),
  (r"^<op_greedy_fixed::GreedyFixed as operation::OperationControl>::matches_iter\|Overflow:Add\(v, a1\.len\)", None, "executed only after the repeated term, whose every match has length a1.len, matched at p: p + len <= len(search)"),
  (r"^<op_atom::Atom as operation::OperationControl>::matches_iter\|unwrap", None, "position + len <= input length was just established, so skip(position) yields at least len items"),
- (r"^<op_back_reference::BackReference as operation::OperationControl>::matches_iter\|Overflow:Sub\(ReMatcher::end_backref", None, "capture start <= end: both written together by CaptureGroupIterator::next / clear_captured_groups_beyond (CAPTURE-BACKREF-PAIR)"),
+ (r"^<op_back_reference::BackReference as operation::OperationControl>::matches_iter\|Overflow:Sub\(ReMatcher::end_backref", None, "start <= end in every slot of the back-reference arrays at all times: the arrays are written only through their two setters, every writer of a start writes an end that is the same position or one delivered from it, an end written alone is the slot's own start (BACKREF-ORDERED); before the repair 0876d9a Capture::matches_iter wrote the start alone and this site could fire (F33)"),
  (r"^<op_back_reference::BackReference as operation::OperationControl>::matches_iter\|Overflow:Sub\(add\(a3, sub\(", None, "l = e - s > 0 on this path (s != e)"),
  (r"^<op_back_reference::BackReference as operation::OperationControl>::matches_iter\|index:index\(a2\.search,", None, "position + l - 1 < len was established; i < l; s + i < e <= len"),
  (r"^re_matcher::CaptureState::set_paren_end\|", None, "endn starts with 3 entries and only grows; the loop exits with group_nr <= len - 1"),
  (r"^re_matcher::ReMatcher::(capture_state_startn|set_capture_state_endn)\|index", None, "called from clear_captured_groups_beyond with i < startn.len(); startn and endn are extended in step"),
  (r"^re_matcher::ReMatcher::(start_backref|end_backref|set_start_backref|set_end_backref)\|index", None, "arrays are allocated with max_parens entries in match_at when the program has back-references (BACKREF-ALLOC); group numbers are < max_parens"),
- (r"^re_matcher::ReMatcher::get_paren\|index:index\(a1\.search, Range", None, "group spans are start <= end <= len (written by CaptureGroupIterator::next from positions the child iterator yielded)"),
+ (r"^re_matcher::ReMatcher::get_paren\|index:index\(a1\.search, Range", None, "group spans are start <= end <= len (written by CaptureGroupIterator::next from positions the child iterator yielded; nobody else writes a group's start, and an end alone is written only for group 0 or as the slot's own start: CAPTURE-WRITERS, CLEAR-BEYOND)"),
  (r"^re_matcher::ReMatcher::is_new_line\|index", None, "callers: Bol passes position-1 with position != 0 (and position <= len), Eol passes position after testing position < len (LEAF-BOL/LEAF-EOL)"),
  (r"^re_matcher::ReMatcher::(match_at|replace)\|unwrap:unwrap\(a1\.program\.max_parens\)", None, "max_parens is Some(..) at both ReProgram::new call sites (LITERAL-PATH program-args)"),
  (r"^re_matcher::ReMatcher::replace\|Overflow:Sub\(Option::unwrap\(a1\.program\.max_parens\), 1\)", None, "max_parens = capturing_open_paren_count >= 1"),
@@ -65,7 +65,7 @@ R = [
  (r"^<regex::TokenIter as std::iter::Iterator>::next\|", None, "matches() returned true => paren start/end 0 are Some with prev_end <= start <= len (SCAN-SLICES, TOKEN-TABLE)"),
  (r"^<analyze_string::AnalyzeIter as std::iter::Iterator>::next\|", None, "matches() returned true => paren start/end 0 are Some; prev_end <= start <= end <= len (SCAN-SLICES, ANALYZE-GUARDS)"),
  (r"^analyze_string::AnalyzeIter::process_matching_substring\|Overflow:Sub\(ReMatcher::paren_count", None, "called only for a match: match_at sets paren_count >= 1"),
- (r"^analyze_string::AnalyzeIter::process_matching_substring\|Overflow:Sub\((Option::unwrap\()?ReMatcher::get_paren_(start|end)", None, "group spans lie inside the match: start_0 <= start_i <= end_i"),
+ (r"^analyze_string::AnalyzeIter::process_matching_substring\|Overflow:Sub\((Option::unwrap\()?ReMatcher::get_paren_(start|end)", None, "group spans lie inside the match: start_0 <= start_i <= end_i (the capture state is emptied at every start position [STATE-RESET capture-state-empty, MATCH-AT], so every group start was written during this attempt, at or after start_0; start_i <= end_i by CAPTURE-WRITERS)"),
  (r"^analyze_string::AnalyzeIter::process_matching_substring\|unwrap:unwrap\(ReMatcher::get_paren_end", None, "a group with a start has an end (written together)"),
  (r"^analyze_string::AnalyzeIter::process_matching_substring\|unwrap:unwrap\(HashMap::get\(a1\.nesting_table", None, "nesting table has an entry for every capturing group of the (non-literal) pattern (NESTING-SCANNER)"),
  (r"^analyze_string::AnalyzeIter::process_matching_substring(::\{closure#\d\})?\|vecop:insert", None, "insert position is 0 or an index found by scanning the same vector (pos <= len)"),
